@@ -40,7 +40,7 @@ def durations(D, n):
 
 
 def tasks(tier):
-    ts = [("long", D) for D in (1, 60, 900)] + [("masked",)]
+    ts = [("long", D) for D in (1, 60, 900)] + [("masked",), ("xl",)]
     for n in range(0, FULL_N[tier] + 1):
         for first in (SIGMA if n >= 4 else (None,)):
             ts.append(("grid", 60, n, first, "full"))
@@ -88,6 +88,11 @@ def run_task(task, acc):
         ds = [D / 2, D, 1.5 * D, 2 * D, 3 * D, 4 * D, 7 * D, 2000 * D]
         ds = [int(d) if float(d).is_integer() else float(d) for d in ds]
         cases = (dict(x=list(x), D=D, suspect=s, fail=f, tol=tol) for s in ds for f in ds for tol in TOL)
+        run_cases(acc, cases, check_case)
+        return
+    if task[0] == "xl":
+        x = alpha.xl(SIGMA)
+        cases = (dict(x=list(x), D=60, suspect=s, fail=f, tol=tol) for s, f in ((60, 180), (120, 30), (600, 90), (90, 100000)) for tol in (0.5, 2.0, 3.5))
         run_cases(acc, cases, check_case)
         return
     if task[0] == "masked":
